@@ -146,12 +146,45 @@ theorem le_unhold (w : World) (b : Aid) : Le w (unhold w b) := by
   · left; simpa [registered, unhold] using h
   · right; simp [unhold] at h; exact h.1
 
+/-- editing a program-made set changes nothing but `sets` -/
+theorem setAdd_frame (w : World) (k : Nat) (b : Aid) :
+    (setAdd w k b).info = w.info ∧ (setAdd w k b).regs = w.regs ∧ (setAdd w k b).held = w.held ∧
+    (setAdd w k b).log = w.log ∧ (setAdd w k b).removedLog = w.removedLog := by
+  unfold setAdd
+  split
+  · split <;> simp
+  · simp
+
+theorem setDiscard_frame (w : World) (k : Nat) (b : Aid) :
+    (setDiscard w k b).info = w.info ∧ (setDiscard w k b).regs = w.regs ∧ (setDiscard w k b).held = w.held ∧
+    (setDiscard w k b).log = w.log ∧ (setDiscard w k b).removedLog = w.removedLog := by
+  unfold setDiscard
+  split <;> simp
+
+theorem alive_congr {w w' : World} (h1 : w'.info = w.info) (h2 : w'.regs = w.regs) (h3 : w'.held = w.held) (a : Aid) :
+    alive w' a = alive w a := by
+  simp [alive, registered, h1, h2, h3]
+
+theorem setAdd_alive (w : World) (k : Nat) (b a : Aid) : alive (setAdd w k b) a = alive w a :=
+  alive_congr (setAdd_frame w k b).1 (setAdd_frame w k b).2.1 (setAdd_frame w k b).2.2.1 a
+
+theorem setDiscard_alive (w : World) (k : Nat) (b a : Aid) : alive (setDiscard w k b) a = alive w a :=
+  alive_congr (setDiscard_frame w k b).1 (setDiscard_frame w k b).2.1 (setDiscard_frame w k b).2.2.1 a
+
+theorem le_setAdd (w : World) (k : Nat) (b : Aid) : Le w (setAdd w k b) :=
+  ⟨⟨[], by simp [(setAdd_frame w k b).1]⟩, fun a _ h => by rw [setAdd_alive] at h; exact h⟩
+
+theorem le_setDiscard (w : World) (k : Nat) (b : Aid) : Le w (setDiscard w k b) :=
+  ⟨⟨[], by simp [(setDiscard_frame w k b).1]⟩, fun a _ h => by rw [setDiscard_alive] at h; exact h⟩
+
 theorem le_runAction (self : Aid) (w : World) (act : Action) : Le w (runAction self w act) := by
   cases act with
   | rmSelf => exact le_removeAgent w self
   | rm b => exact le_removeAgent w b
   | create m ty n hold => exact le_createN w m ty hold _
   | unhold b => exact le_unhold w b
+  | addTo k b => exact le_setAdd w k b
+  | discardFrom k b => exact le_setDiscard w k b
 
 theorem le_foldl_runAction (self : Aid) (w : World) (acts : List Action) : Le w (acts.foldl (runAction self) w) := by
   induction acts generalizing w with
@@ -200,6 +233,8 @@ theorem runAction_log (self : Aid) (w : World) (act : Action) : (runAction self 
   | rm b => exact removeAgent_log w b
   | create m ty n hold => exact createN_log w m ty hold _
   | unhold b => rfl
+  | addTo k b => exact (setAdd_frame w k b).2.2.2.1
+  | discardFrom k b => exact (setDiscard_frame w k b).2.2.2.1
 
 theorem foldl_runAction_log (self : Aid) (w : World) (acts : List Action) :
     (acts.foldl (runAction self) w).log = w.log := by
@@ -518,5 +553,392 @@ theorem groupWalk_eq (script : Aid → List Action) (arg : Nat) (w : World) (gs 
     apply ih
     intro g' hg' a ha
     exact Nat.lt_of_lt_of_le (hg g' (List.mem_cons_of_mem _ hg') a ha) (le_walk script arg w g.2).len
+
+end Mesa.Agents
+
+namespace Mesa.Agents
+
+/-! ### callbacks that raise: the call ends at the raiser -/
+
+/-- what an activation with raising callbacks does is an ordinary walk over a prefix of the reference list: the
+    prefix that ends with the first member that is alive at its turn and whose callback raises (the whole list if
+    there is none) -/
+theorem walkX_spec (script : Aid → List Action) (raises : Aid → Bool) (arg : Nat) (w : World) (refs : List Aid) :
+    ∃ pre post, refs = pre ++ post ∧
+      (walkX script raises arg w refs).1 = walk script arg w pre ∧
+      ((walkX script raises arg w refs).2 = true →
+        ∃ pre' a, pre = pre' ++ [a] ∧ alive (walk script arg w pre') a = true ∧ raises a = true ∧
+          ∀ b ∈ visited script arg w pre', raises b = false) ∧
+      ((walkX script raises arg w refs).2 = false → post = [] ∧ ∀ b ∈ visited script arg w refs, raises b = false) := by
+  induction refs generalizing w with
+  | nil => exact ⟨[], [], rfl, rfl, by simp [walkX], by simp [walkX, visited]⟩
+  | cons x refs ih =>
+    by_cases hal : alive w x = true
+    · by_cases hr : raises x = true
+      · refine ⟨[x], refs, rfl, ?_, ?_, ?_⟩
+        · simp [walkX, hal, hr, walk, turn]
+        · intro _
+          exact ⟨[], x, rfl, by simpa [walk] using hal, hr, by simp [visited]⟩
+        · simp [walkX, hal, hr]
+      · have hr' : raises x = false := by simpa using hr
+        obtain ⟨pre, post, h1, h2, h3, h4⟩ := ih (invoke script arg w x)
+        have hw : walkX script raises arg w (x :: refs) = walkX script raises arg (invoke script arg w x) refs := by
+          simp [walkX, hal, hr']
+        refine ⟨x :: pre, post, by rw [h1]; rfl, ?_, ?_, ?_⟩
+        · rw [hw, h2, walk_cons, turn_alive hal]
+        · intro hx
+          rw [hw] at hx
+          obtain ⟨pre', a, e1, e2, e3, e4⟩ := h3 hx
+          refine ⟨x :: pre', a, by rw [e1]; rfl, by rw [walk_cons, turn_alive hal]; exact e2, e3, ?_⟩
+          intro b hb
+          rw [visited_alive _ hal] at hb
+          rcases List.mem_cons.mp hb with rfl | hb
+          · exact hr'
+          · exact e4 b hb
+        · intro hx
+          rw [hw] at hx
+          refine ⟨(h4 hx).1, ?_⟩
+          intro b hb
+          rw [visited_alive _ hal] at hb
+          rcases List.mem_cons.mp hb with rfl | hb
+          · exact hr'
+          · exact (h4 hx).2 b hb
+    · obtain ⟨pre, post, h1, h2, h3, h4⟩ := ih w
+      have hw : walkX script raises arg w (x :: refs) = walkX script raises arg w refs := by
+        simp [walkX, hal]
+      refine ⟨x :: pre, post, by rw [h1]; rfl, ?_, ?_, ?_⟩
+      · rw [hw, h2, walk_cons, turn_dead hal]
+      · intro hx
+        rw [hw] at hx
+        obtain ⟨pre', a, e1, e2, e3, e4⟩ := h3 hx
+        refine ⟨x :: pre', a, by rw [e1]; rfl, by rw [walk_cons, turn_dead hal]; exact e2, e3, ?_⟩
+        intro b hb
+        rw [visited_dead _ hal] at hb
+        exact e4 b hb
+      · intro hx
+        rw [hw] at hx
+        refine ⟨(h4 hx).1, ?_⟩
+        intro b hb
+        rw [visited_dead _ hal] at hb
+        exact (h4 hx).2 b hb
+
+theorem walkX_fst_walk (script : Aid → List Action) (raises : Aid → Bool) (arg : Nat) (w : World) (refs : List Aid) :
+    ∃ pre, pre <+: refs ∧ (walkX script raises arg w refs).1 = walk script arg w pre := by
+  obtain ⟨pre, post, h1, h2, _, _⟩ := walkX_spec script raises arg w refs
+  exact ⟨pre, ⟨post, h1.symm⟩, h2⟩
+
+theorem le_walkX (script : Aid → List Action) (raises : Aid → Bool) (arg : Nat) (w : World) (refs : List Aid) :
+    Le w (walkX script raises arg w refs).1 := by
+  obtain ⟨pre, _, h⟩ := walkX_fst_walk script raises arg w refs
+  rw [h]; exact le_walk script arg w pre
+
+/-- callbacks that never raise: the ordinary walk -/
+theorem walkX_never (script : Aid → List Action) (arg : Nat) (w : World) (refs : List Aid) :
+    walkX script (fun _ => false) arg w refs = (walk script arg w refs, false) := by
+  induction refs generalizing w with
+  | nil => rfl
+  | cons x refs ih =>
+    by_cases hal : alive w x = true
+    · simp only [walkX, hal, if_true, walk_cons, turn_alive hal]
+      simpa using ih _
+    · simp only [walkX, hal, walk_cons, turn_dead hal]
+      simpa using ih _
+
+theorem walkX_append (script : Aid → List Action) (raises : Aid → Bool) (arg : Nat) (w : World) (l1 l2 : List Aid) :
+    walkX script raises arg w (l1 ++ l2) =
+      if (walkX script raises arg w l1).2 then ((walkX script raises arg w l1).1, true)
+      else walkX script raises arg (walkX script raises arg w l1).1 l2 := by
+  induction l1 generalizing w with
+  | nil => simp [walkX]
+  | cons a l1 ih =>
+    by_cases hal : alive w a = true
+    · by_cases hr : raises a = true
+      · simp [walkX, hal, hr]
+      · simp only [List.cons_append, walkX, hal, hr, if_true]
+        exact ih _
+    · simp only [List.cons_append, walkX, hal]
+      exact ih _
+
+theorem walkX_filter_alive (script : Aid → List Action) (raises : Aid → Bool) (arg : Nat) (w0 w : World) (h0 : Le w0 w)
+    (g : List Aid) (hg : ∀ a ∈ g, a < w0.info.length) :
+    walkX script raises arg w (g.filter (alive w0)) = walkX script raises arg w g := by
+  induction g generalizing w with
+  | nil => simp
+  | cons a g ih =>
+    have hg' : ∀ x ∈ g, x < w0.info.length := fun x hx => hg x (List.mem_cons_of_mem _ hx)
+    by_cases ha0 : alive w0 a = true
+    · simp only [List.filter_cons, ha0, if_true]
+      by_cases hal : alive w a = true
+      · by_cases hr : raises a = true
+        · simp [walkX, hal, hr]
+        · simp only [walkX, hal, hr, if_true]
+          exact ih _ (h0.trans (le_invoke script arg w a)) hg'
+      · simp only [walkX, hal]
+        exact ih w h0 hg'
+    · have hal : ¬ alive w a = true := fun h => ha0 (h0.dead a (hg a (List.mem_cons_self)) h)
+      simp only [List.filter_cons, ha0, walkX, hal]
+      exact ih w h0 hg'
+
+theorem groupsX_eq (script : Aid → List Action) (raises : Aid → Bool) (arg : Nat) (w : World) (gs : List (Nat × List Aid))
+    (hg : ∀ g ∈ gs, ∀ a ∈ g.2, a < w.info.length) :
+    groupsX script raises arg w gs = walkX script raises arg w (gs.map (·.2)).flatten := by
+  induction gs generalizing w with
+  | nil => rfl
+  | cons g gs ih =>
+    simp only [groupsX, List.map_cons, List.flatten_cons, walkX_append]
+    rw [walkX_filter_alive script raises arg w w (Le.refl w) g.2 (hg g (List.mem_cons_self))]
+    cases hr : (walkX script raises arg w g.2).2 with
+    | true => simp
+    | false =>
+      simp only [Bool.false_eq_true, if_false]
+      apply ih
+      intro g' hg' a ha
+      exact Nat.lt_of_lt_of_le (hg g' (List.mem_cons_of_mem _ hg') a ha) (le_walkX script raises arg w g.2).len
+
+theorem groupDoX_eq (script : Aid → List Action) (raises : Aid → Bool) (arg : Nat) (key : Aid → Nat) (w : World) (t : Target) :
+    groupDoX script raises arg key w t =
+      walkX script raises arg w ((groupBy key (members w t)).map (·.2)).flatten := by
+  unfold groupDoX
+  apply groupsX_eq
+  intro g hg a ha
+  apply members_lt w t
+  apply (groupBy_flatten_perm key (members w t)).subset
+  exact List.mem_flatten.mpr ⟨g.2, List.mem_map.mpr ⟨g, hg, rfl⟩, ha⟩
+
+/-- `map` with raising callbacks: the state change of `do`; no result list iff an exception left the call; otherwise
+    the results of the invoked agents in order -/
+theorem walkMapX_spec (script : Aid → List Action) (raises : Aid → Bool) (arg : Nat) (ret : Aid → Nat → Nat) (w : World)
+    (refs : List Aid) :
+    (walkMapX script raises arg ret w refs).1 = (walkX script raises arg w refs).1 ∧
+    ((walkMapX script raises arg ret w refs).2 = none ↔ (walkX script raises arg w refs).2 = true) ∧
+    (∀ rs, (walkMapX script raises arg ret w refs).2 = some rs →
+      rs = (visited script arg w refs).map (fun a => ret a arg)) := by
+  induction refs generalizing w with
+  | nil => simp [walkMapX, walkX, visited]
+  | cons a refs ih =>
+    by_cases hal : alive w a = true
+    · by_cases hr : raises a = true
+      · simp [walkMapX, walkX, hal, hr]
+      · have hr' : raises a = false := by simpa using hr
+        obtain ⟨i1, i2, i3⟩ := ih (invoke script arg w a)
+        simp only [walkMapX, walkX, hal, hr', if_true, Bool.false_eq_true, if_false, visited_alive _ hal, List.map_cons]
+        refine ⟨i1, ?_, ?_⟩
+        · rw [← i2]; simp
+        · intro rs hrs
+          cases h2 : (walkMapX script raises arg ret (invoke script arg w a) refs).2 with
+          | none => rw [h2] at hrs; simp at hrs
+          | some rs' =>
+            rw [h2] at hrs
+            simp only [Option.map_some, Option.some.injEq] at hrs
+            rw [← hrs, i3 rs' h2]
+    · simp only [walkMapX, walkX, hal, visited_dead _ hal]
+      exact ih w
+
+theorem groupsMapX_spec (script : Aid → List Action) (raises : Aid → Bool) (arg : Nat) (ret : Aid → Nat → Nat) (w : World)
+    (gs : List (Nat × List Aid)) :
+    (groupsMapX script raises arg ret w gs).1 = (groupsX script raises arg w gs).1 ∧
+    ((groupsMapX script raises arg ret w gs).2 = none ↔ (groupsX script raises arg w gs).2 = true) := by
+  induction gs generalizing w with
+  | nil => simp [groupsMapX, groupsX]
+  | cons g gs ih =>
+    obtain ⟨s1, s2, _⟩ := walkMapX_spec script raises arg ret w (g.2.filter (alive w))
+    simp only [groupsMapX, groupsX]
+    cases hm : walkMapX script raises arg ret w (g.2.filter (alive w)) with
+    | mk w' o =>
+      rw [hm] at s1 s2
+      simp only at s1 s2
+      cases o with
+      | none =>
+        have hx : (walkX script raises arg w (g.2.filter (alive w))).2 = true := s2.mp rfl
+        simp [hx, s1]
+      | some rs =>
+        have hx : (walkX script raises arg w (g.2.filter (alive w))).2 = false := by
+          cases h : (walkX script raises arg w (g.2.filter (alive w))).2 with
+          | false => rfl
+          | true => have := s2.mpr h; simp at this
+        simp only [hx]
+        obtain ⟨j1, j2⟩ := ih w'
+        rw [← s1]
+        refine ⟨j1, ?_⟩
+        simp only [Bool.false_eq_true, if_false]
+        rw [← j2]; simp
+
+end Mesa.Agents
+
+namespace Mesa.Agents
+
+/-! ### callbacks that edit program-made sets (possibly the activated one): invisible to the walk -/
+
+def Action.isSetEdit : Action → Bool
+  | .addTo _ _ | .discardFrom _ _ => true
+  | _ => false
+
+/-- the same callbacks without their `add` / `discard` calls on program-made sets -/
+def stripEdits (script : Aid → List Action) : Aid → List Action := fun a => (script a).filter (fun act => !act.isSetEdit)
+
+/-- `w` with other program-made sets -/
+def withSets (w : World) (s : List (Nat × List Aid)) : World := { w with sets := s }
+
+theorem withSets_self (w : World) : withSets w w.sets = w := rfl
+
+theorem withSets_withSets (w : World) (s s' : List (Nat × List Aid)) : withSets (withSets w s) s' = withSets w s' := rfl
+
+theorem alive_withSets (w : World) (s : List (Nat × List Aid)) (a : Aid) : alive (withSets w s) a = alive w a :=
+  alive_congr rfl rfl rfl a
+
+theorem removeAgent_withSets (w : World) (s : List (Nat × List Aid)) (b : Aid) :
+    removeAgent (withSets w s) b = withSets (removeAgent w b) s := by
+  simp only [removeAgent, withSets]
+  cases w.info[b]? with
+  | none => rfl
+  | some i =>
+    simp only
+    cases w.regs[i.model]? with
+    | none => rfl
+    | some r => rfl
+
+theorem createAgent_withSets (w : World) (s : List (Nat × List Aid)) (m : Nat) (ty : Ty) (hold : Bool) (x : Payload) :
+    createAgent (withSets w s) m ty hold x = withSets (createAgent w m ty hold x) s := by
+  simp only [createAgent, withSets]
+  cases w.regs[m]? with
+  | none => rfl
+  | some r => rfl
+
+theorem createN_withSets (w : World) (s : List (Nat × List Aid)) (m : Nat) (ty : Ty) (hold : Bool) (xs : List Payload) :
+    createN (withSets w s) m ty hold xs = withSets (createN w m ty hold xs) s := by
+  unfold createN
+  induction xs generalizing w with
+  | nil => rfl
+  | cons x xs ih => simp only [List.foldl_cons, createAgent_withSets, ih]
+
+theorem setAdd_eq_withSets (w : World) (k : Nat) (b : Aid) : ∃ s', setAdd w k b = withSets w s' := by
+  unfold setAdd
+  split
+  · split
+    · exact ⟨_, rfl⟩
+    · exact ⟨w.sets, rfl⟩
+  · exact ⟨w.sets, rfl⟩
+
+theorem setDiscard_eq_withSets (w : World) (k : Nat) (b : Aid) : ∃ s', setDiscard w k b = withSets w s' := by
+  unfold setDiscard
+  split
+  · exact ⟨_, rfl⟩
+  · exact ⟨w.sets, rfl⟩
+
+theorem runAction_withSets (self : Aid) (w : World) (s : List (Nat × List Aid)) (act : Action) :
+    ∃ s', runAction self (withSets w s) act = withSets (if act.isSetEdit then w else runAction self w act) s' := by
+  cases act with
+  | rmSelf => exact ⟨s, removeAgent_withSets w s self⟩
+  | rm b => exact ⟨s, removeAgent_withSets w s b⟩
+  | create m ty n hold => exact ⟨s, createN_withSets w s m ty hold _⟩
+  | unhold b => exact ⟨s, rfl⟩
+  | addTo k b =>
+    obtain ⟨s', h⟩ := setAdd_eq_withSets (withSets w s) k b
+    exact ⟨s', by simp only [runAction, h, Action.isSetEdit, if_true, withSets_withSets]⟩
+  | discardFrom k b =>
+    obtain ⟨s', h⟩ := setDiscard_eq_withSets (withSets w s) k b
+    exact ⟨s', by simp only [runAction, h, Action.isSetEdit, if_true, withSets_withSets]⟩
+
+theorem foldl_runAction_withSets (self : Aid) (acts : List Action) (w : World) (s : List (Nat × List Aid)) :
+    ∃ s', acts.foldl (runAction self) (withSets w s)
+      = withSets ((acts.filter (fun act => !act.isSetEdit)).foldl (runAction self) w) s' := by
+  induction acts generalizing w s with
+  | nil => exact ⟨s, rfl⟩
+  | cons act acts ih =>
+    obtain ⟨s1, h1⟩ := runAction_withSets self w s act
+    simp only [List.foldl_cons, h1]
+    cases he : act.isSetEdit with
+    | true => simpa [List.filter_cons, he] using ih w s1
+    | false => simpa [List.filter_cons, he] using ih (runAction self w act) s1
+
+theorem invoke_withSets (script : Aid → List Action) (arg : Nat) (w : World) (s : List (Nat × List Aid)) (a : Aid) :
+    ∃ s', invoke script arg (withSets w s) a = withSets (invoke (stripEdits script) arg w a) s' := by
+  unfold invoke stripEdits
+  exact foldl_runAction_withSets a (script a) { w with log := w.log ++ [(a, arg)] } s
+
+/-- the walk with set-editing callbacks and the walk without the edits visit the same agents and end in worlds
+    that differ in nothing but the program-made sets -/
+theorem walk_withSets (script : Aid → List Action) (arg : Nat) (refs : List Aid) (w : World) (s : List (Nat × List Aid)) :
+    (∃ s', walk script arg (withSets w s) refs = withSets (walk (stripEdits script) arg w refs) s') ∧
+    visited script arg (withSets w s) refs = visited (stripEdits script) arg w refs := by
+  induction refs generalizing w s with
+  | nil => exact ⟨⟨s, rfl⟩, rfl⟩
+  | cons a refs ih =>
+    by_cases hal : alive w a = true
+    · have hal' : alive (withSets w s) a = true := by rw [alive_withSets]; exact hal
+      obtain ⟨s1, h1⟩ := invoke_withSets script arg w s a
+      rw [walk_cons, walk_cons, turn_alive hal, turn_alive hal', visited_alive _ hal, visited_alive _ hal', h1]
+      exact ⟨(ih _ s1).1, by rw [(ih _ s1).2]⟩
+    · have hal' : ¬ alive (withSets w s) a = true := by rw [alive_withSets]; exact hal
+      rw [walk_cons, walk_cons, turn_dead hal, turn_dead hal', visited_dead _ hal, visited_dead _ hal']
+      exact ih w s
+
+/-- callbacks that only edit sets: every reference that is alive when the call starts is invoked, in order -/
+theorem visited_of_no_churn (script : Aid → List Action) (arg : Nat) (w : World) (refs : List Aid)
+    (hs : ∀ a, stripEdits script a = []) (hal : ∀ a ∈ refs, alive w a = true) :
+    visited script arg w refs = refs := by
+  have h := (walk_withSets script arg refs w w.sets).2
+  rw [withSets_self] at h
+  rw [h]
+  clear h
+  induction refs generalizing w with
+  | nil => rfl
+  | cons a refs ih =>
+    rw [visited_alive _ (hal a List.mem_cons_self)]
+    have hinv : ∀ x, alive (invoke (stripEdits script) arg w a) x = alive w x := by
+      intro x
+      simp only [invoke, hs a, List.foldl_nil]
+      exact alive_congr rfl rfl rfl x
+    rw [ih _ (fun x hx => by rw [hinv]; exact hal x (List.mem_cons_of_mem _ hx))]
+
+/-! ### activations whose callbacks make no set edits leave every program-made set as it is -/
+
+theorem removeAgent_sets (w : World) (b : Aid) : (removeAgent w b).sets = w.sets := by
+  cases hi : w.info[b]? with
+  | none => rw [removeAgent_none hi]
+  | some i =>
+    cases hr : w.regs[i.model]? with
+    | none => rw [removeAgent_noreg hi hr]
+    | some r => rw [removeAgent_some hi hr]
+
+theorem createAgent_sets (w : World) (m ty hold x) : (createAgent w m ty hold x).sets = w.sets := by
+  unfold createAgent; split <;> rfl
+
+theorem createN_sets (w : World) (m ty hold) (xs : List Payload) : (createN w m ty hold xs).sets = w.sets := by
+  unfold createN
+  induction xs generalizing w with
+  | nil => rfl
+  | cons x xs ih => simp only [List.foldl_cons]; rw [ih, createAgent_sets]
+
+theorem runAction_sets (self : Aid) (w : World) (act : Action) (h : act.isSetEdit = false) :
+    (runAction self w act).sets = w.sets := by
+  cases act with
+  | rmSelf => exact removeAgent_sets w self
+  | rm b => exact removeAgent_sets w b
+  | create m ty n hold => exact createN_sets w m ty hold _
+  | unhold b => rfl
+  | addTo k b => simp [Action.isSetEdit] at h
+  | discardFrom k b => simp [Action.isSetEdit] at h
+
+theorem walk_sets (script : Aid → List Action) (hne : ∀ a, ∀ act ∈ script a, act.isSetEdit = false) (arg : Nat) (w : World)
+    (refs : List Aid) : (walk script arg w refs).sets = w.sets := by
+  induction refs generalizing w with
+  | nil => rfl
+  | cons a refs ih =>
+    rw [walk_cons, ih]
+    unfold turn
+    split
+    · unfold invoke
+      have hsa := hne a
+      generalize script a = acts at hsa
+      have : ({ w with log := w.log ++ [(a, arg)] } : World).sets = w.sets := rfl
+      rw [← this]
+      generalize ({ w with log := w.log ++ [(a, arg)] } : World) = w'
+      induction acts generalizing w' with
+      | nil => rfl
+      | cons act acts ih2 =>
+        rw [List.foldl_cons, ih2 (fun x hx => hsa x (List.mem_cons_of_mem _ hx)),
+          runAction_sets a w' act (hsa act List.mem_cons_self)]
+    · rfl
 
 end Mesa.Agents
